@@ -64,6 +64,8 @@ func vWriteSetBegin()
 func vWriteSetEnd(id string)
 func vObserve(label string, v any)
 func vConcurrently(f func(i int))
+func vNote(c bool, id string)
+func vSameState(a, b any) bool
 `
 
 var pkgClauseRe = regexp.MustCompile(`(?m)^package\s+(\w+)`)
